@@ -494,6 +494,28 @@ def long_layer(run, rng, tier, model):
     return m
 
 
+def frag_spec_layer(run, rng, tier, model):
+    """spec side of coq/Rt/CanonicalFrag.v: the extracted frag_whole / frag_each with a small fragment unit against the
+    wording of X.691 11.9 / 22.1 written in python (members of one width, so that the padded key is injective)"""
+    lines, exp = [], []
+    for _ in range(60 if tier == "quick" else 400):
+        K = rng.choice([1, 2, 3, 4, 5, 8])
+        w = 1 + rng.below(9)
+        n = rng.choice([0, 1, K - 1, K, K + 1, 2 * K, 2 * K + 1, 3 * K + 1, 4 * K, 4 * K + 1, 5 * K + 1, 9 * K + 2, rng.below(12 * K + 1)])
+        items = [format(rng.below(1 << w), "0%db" % w) for _ in range(max(n, 0))]
+        arg = ",".join(items) or "-"
+        lines += ["fragwhole %d %s" % (K, arg), "frageach %d %s" % (K, arg)]
+        exp += [py_fragments(K, items), py_fragments(K, items, True)]
+    rc, out, err = run_lines(model, lines, timeout=300)
+    if rc != 0 or len(out) != len(lines):
+        raise RuntimeError("model driver failed (frag): %s %s" % (rc, err[-500:]))
+    for l, o, e in zip(lines, out, exp):
+        run.case(l)
+        run.count("spec_" + l.split()[0])
+        if o != (e or "-"):
+            run.violation("spec:CanonicalFrag", {"what": "the extracted fragment loop disagrees with X.691 11.9 / 22.1 written in python", "command_line": l, "model": o, "expected": e}, no_input=True)
+
+
 # ---------------------------------------------------------------- (ii) (iii) (iv): hand-written modules
 
 def ival(z, pad=0):
@@ -647,6 +669,22 @@ def hand_layer(run, rng, tier, model):
                                                "asn1c_out": m.get("asn1c_out", "")[-1200:], "build_log": m.get("build_log", "")[-1200:]}, no_input=True)
         builds[bname] = {m["name"]: m for m in mods}
     gw, gd, gb = groups_wint(rng, tier), groups_default(rng, tier), groups_bits(rng, tier)
+    # the model of DEFAULT elision (coq/Rt/CanonicalDefault.v) on every input of the generated extensible SEQUENCEs
+    mlines, mkeys = [], []
+    for gi, (tn, kind, inputs, z) in enumerate(gx):
+        ety, dr, da = dx_model(z["ms"])
+        for j, stored in enumerate(z["assign"]):
+            vs = dx_model_value(z["ms"], stored)
+            mlines += ["dder %s %s %s %s" % (dr, da, ety, vs), "duper 0 %s %s %s %s" % (dr, da, ety, vs), "doer %s %s %s %s" % (dr, da, ety, vs)]
+            mkeys.append((gi, j))
+    rcm, mo, me = run_lines(model, mlines, timeout=600)
+    if rcm != 0 or len(mo) != len(mlines):
+        raise RuntimeError("model driver failed (DEFAULT layer): %s %s" % (rcm, me[-800:]))
+    dxmodel = {k: mo[3 * i:3 * i + 3] for i, k in enumerate(mkeys)}
+    for (gi, j), (d, u, o) in dxmodel.items():
+        if (d, u, o) != tuple(dxmodel[(gi, 0)]):
+            run.violation("model:default_elision", {"what": "extracted model: DER/UPER/OER differ between two ways of storing the DEFAULT components of one value (contradicts C06_default_*_representation_independent)",
+                                                    "type": dx_model(gx[gi][3]["ms"])[0], "command_line": mlines[3 * mkeys.index((gi, j))]}, no_input=True)
     for bname, ms in builds.items():
         # ---- INTEGER padding and DEFAULT: groups of inputs
         for mname, groups in (("WINT", gw), ("DDEF", gd), ("DDX", gx), ("SANY", gs)):
@@ -681,13 +719,22 @@ def hand_layer(run, rng, tier, model):
                             run.violation("oracle:decode", dict(base, what="canonical input of a group is not decoded"), no_input=True)
                         continue
                     ref[gi] = r
-                    continue
                 rr = ref.get(gi)
                 if rr is None:
                     continue
                 if r is None:
                     run.violation("oracle:decode", dict(base, what="a non-canonical BER form of a decodable value is not decoded (C03), so C06 cannot be evaluated here"), no_input=True)
                     continue
+                if mname == "DDX" and j not in z["ff"]:
+                    # faithfulness: the C on this very representation against the model (an input that writes a DEFAULT TRUE as ff
+                    # is the open finding C06-default-boolean-true-octet: the model's BOOLEAN has no octet)
+                    for s, e in zip(("der", "cper", "coer"), dxmodel[(gi, j)]):
+                        run.count("model_default_" + s)
+                        if (r[s].startswith("!") if e == "NONE" else r[s] == e):
+                            continue
+                        run.violation("correspondence:CanonicalDefault.%s" % s, dict(base, what="C encoder output differs from the model of DEFAULT elision on this representation",
+                                                                                      syntax=s, model=e, model_type=dx_model(z["ms"])[0], stored=dx_model_value(z["ms"], z["assign"][j])),
+                                      no_input=(rr[s] == r[s]))
                 if j == -1 and r.get("sites") == "0" and tn not in ("IC", "IN"):      # constrained types stay native long under -fwide-types
                     run.violation("harness:mutate", dict(base, what="in-memory INTEGER padding found no INTEGER_t to pad"), no_input=True)
                 for s in SYNS:
@@ -795,6 +842,7 @@ def main(tier):
         model = model_build()
         mods = model_layer(run, rng, tier, model)
         long_layer(run, rng, tier, model)
+        frag_spec_layer(run, rng, tier, model)
         hand_layer(run, rng, tier, model)
     except BuildError as e:
         run.violation("build", {"what": str(e)[-2500:]}, no_input=True)
